@@ -145,6 +145,9 @@ class Trainer:
                 
         if monitor == 'val_loss':
             monitor = 'val_loss' if validation_loader is not None else 'loss'
+        
+        # predictions left over from an interrupted fit must not count in this one
+        if self.evaluator != None: self.evaluator.reset()
             
         for epoch in range(epochs):
             ############ TRAIN ############
